@@ -67,6 +67,8 @@ mutual
     | forUp (i lim : Bytes) (body : JsStmts)
     /-- `if (lim > 0) {…} else {…}` -/
     | ifPos (lim : Bytes) (body els : JsStmts)
+    /-- `if (idx == 0) {…}` (the `{ifempty}` of a range loop: no iteration happened) -/
+    | ifZero (idx : Bytes) (body : JsStmts)
     /-- `for (var i = init, idx = 0; i < lim; i += step, idx++) {…}` (lim, step: variables) -/
     | forStep (i lim step idx : Bytes) (init : JsExpr) (body : JsStmts)
     /-- `switch (e) { case v: … break; … default: … break; }` -/
@@ -257,6 +259,8 @@ mutual
         | .obj bkvs, .inr extra => withVal (G callee (.obj (extra ++ bkvs)) env.ijData) fun r => appendTo env buf r
         | .obj _, .inl .error => .error
         | _, _ => .unspec           -- a base that is no object, an argument outside the subset
+    | .ifZero idx body, env =>
+      withVal (eval env (.loopFirst idx)) fun c => if toBoolean c then execStmts body env else .ok env
     | .ifPos lim body els, env =>
       withVal (eval env (.bin .gt (.local lim) (.num 0))) fun c =>
         if toBoolean c then execStmts body env else execStmts els env
